@@ -1,6 +1,8 @@
 """C05 - for every slot exactly one active proposer is entitled, and all nodes agree who.  DESIGN section 5 (C05)."""
 import json
+import os
 
+import authoritycommon as ac
 import schedcommon as sc
 from verifkit import Infra
 
@@ -65,6 +67,14 @@ def run(ctx):
     if ctx.replay:
         art = json.load(open(ctx.replay))
         how = art.get("how") or {}
+        if str(how.get("mode", "")).startswith("authority"):
+            a = how.get("driver_args")
+            if how["mode"] == "authority-chain" and a:
+                ac.chains(ctx, int(a[a.index("-runs") + 1]), int(a[a.index("-blocks") + 1]))
+            else:
+                ac.replay_behaviours(ctx, int(how.get("num", 20)))
+            ctx.cov["rule"] = "replay of " + ctx.replay
+            return
         if "driver_args" not in how:
             raise Infra("replay artefact has no driver arguments")
         if how.get("mode") == "seed":
@@ -72,6 +82,13 @@ def run(ctx):
         else:
             bind(ctx, "replay-" + how.get("label", "x"), how["driver_args"], 3000)
         ctx.cov["rule"] = "replay of " + ctx.replay
+        return
+
+    if os.environ.get("C05_ONLY") == "authority":
+        # development shortcut: only the authority step (the evidence file is then partial)
+        ev, dn = ac.step(ctx)
+        ctx.cov["evaluations"], ctx.cov["distinct_nontrivial"] = ev, dn
+        ctx.cov["rule"] = "C05_ONLY=authority: partial run"
         return
 
     design_level(ctx)
@@ -98,11 +115,16 @@ def run(ctx):
         ctx.sample(sc.sample_of(big[0], 150) or sc.sample_of(big[0]))
         ctx.sample(sc.sample_of(big[0], 101) or sc.sample_of(big[0]))
 
+    # growth (DESIGN section 8): the authority contract and the validator's candidate cache that feed the scheduler
+    auth_ev, auth_dn = ac.step(ctx)
+
     if not demo_ok and not ctx.violations and not ctx.known_hit:
         raise Infra("binding demonstration could not be performed (untouched demo trace rejected) although the full traces conform")
 
     ctx.cov["evaluations"] = sum(s["me_events"] + s["slot_events"] for s in summs)
     ctx.cov["distinct_nontrivial"] = sum(s["distinct_nontrivial"] for s in summs)
+    ctx.cov["evaluations"] += auth_ev
+    ctx.cov["distinct_nontrivial"] += auth_dn
     if sd:
         ss = sd[1]
         ctx.cov["evaluations"] += ss["gen_queries"]
@@ -123,7 +145,10 @@ def run(ctx):
     ctx.cov["rule"] = ("one evaluation = one real scheduler constructed for (kind, proposer list, seed/parent, me) and queried "
                        "(Schedule over a set of times, IsTheTime over a set of times, Updates, order via IsScheduled), or one "
                        "all-proposers acceptance probe of an instance, or one real Seeder.Generate call; non-trivial (seeder) = distinct (repository, parent) "
-                       "whose seed block was NOT on the best chain when asked; non-trivial (scheduler) = at least two eligible proposers AND some "
+                       "whose seed block was NOT on the best chain when asked; authority step: one evaluation = one replayed Authority.tla step "
+                       "compared in full or one real block validated warm/cold/spec, non-trivial = distinct replayed behaviour with an "
+                       "effective add, an effective revoke and a cache hit after an invalidation, or distinct proposer list after a "
+                       "block that changed it; non-trivial (scheduler) = at least two eligible proposers AND some "
                        "Schedule answer had to skip a slot AND some Updates answer switched somebody off; distinct = distinct "
                        "(kind, interval, parent time, list size, order among eligible, me[, parent number for v1]) key, counted by the driver")
     # every permutation must have been realised on the real code for v2 and for the equal-weight pos vector
